@@ -19,7 +19,10 @@ Inductive contrib :=
 | CProp (p : node)                   (* a property of a spread object literal, verbatim *)
 | CSpread (e : node)                 (* `...e` *)
 | COn (e : node)                     (* transformOn(e) *)
-| CElem (k : str) (site : node).     (* an element given as attribute value (kept as source/out node) *)
+| CElem (k : str) (site : node)      (* an element given as attribute value (kept as source/out node) *)
+| CBreak.                            (* boundary between two arguments of Vue's mergeProps: entries on
+                                        both sides of it are MERGED (class / style / listeners), entries
+                                        on one side follow plain last-wins object semantics *)
 
 Inductive adir := ADir (def : node) (value : node) (arg : option node) (mods : list str).
 
@@ -78,6 +81,7 @@ Definition contrib_eqb (a b : contrib) : bool :=
   | CSpread e, CSpread e' => node_eqb e e'
   | COn e, COn e' => node_eqb e e'
   | CElem k _, CElem k' _ => str_eqb k k'      (* the nested sites are compared separately *)
+  | CBreak, CBreak => true
   | _, _ => false
   end.
 
@@ -386,22 +390,37 @@ Definition is_vmodel_attr (a : node) : bool :=
   | _ => false
   end.
 
+(* a run of written attributes forms one object (repeated class / style / listeners grouped when
+   mergeProps is on); a spread under mergeProps and a transformOn object are arguments of their
+   own; the arguments are joined by Vue's mergeProps *)
+Definition close_run (run : list contrib) : list (list contrib) :=
+  match run with
+  | [] => []
+  | _ => [if o_merge_props O then group_contribs run else run]
+  end.
+
+Fixpoint join_segments (segs : list (list contrib)) : list contrib :=
+  match segs with
+  | [] => []
+  | [x] => x
+  | x :: r => x ++ CBreak :: join_segments r
+  end.
+
 Definition spec_attrs (is_comp : bool) (tag : node) (attrs0 : list node)
   : list contrib * list adir * option node :=
   let attrs := splice_vmodels attrs0 false in
-  let step (acc : list contrib * list contrib * list adir * option node) (a : node) :=
-    let '(done, run, dirs, slots) := acc in
+  let step (acc : list (list contrib) * list contrib * list adir * option node) (a : node) :=
+    let '(segs, run, dirs, slots) := acc in
     let '(cs, ds, sl) := attr_spec is_comp tag attrs a in
     let slots := match sl with Some x => x | None => slots end in
-    let breaks := match a with
-                  | Spread _ => true
-                  | _ => match cs with [COn _] => true | _ => false end
-                  end in
-    if breaks then
-      (done ++ (if o_merge_props O then group_contribs run else run) ++ cs, [], dirs ++ ds, slots)
-    else (done, run ++ cs, dirs ++ ds, slots) in
-  let '(done, run, dirs, slots) := fold_left step attrs ([], [], [], None) in
-  (map norm_contrib (done ++ (if o_merge_props O then group_contribs run else run)), dirs, slots).
+    let own := match a with
+               | Spread _ => o_merge_props O
+               | _ => match cs with [COn _] => true | _ => false end
+               end in
+    if own then (segs ++ close_run run ++ [cs], [], dirs ++ ds, slots)
+    else (segs, run ++ cs, dirs ++ ds, slots) in
+  let '(segs, run, dirs, slots) := fold_left step attrs ([], [], [], None) in
+  (map norm_contrib (join_segments (segs ++ close_run run)), dirs, slots).
 
 End Spec.
 
@@ -421,13 +440,20 @@ Definition view_arg (a : node) : list contrib :=
   | _ => [CSpread a]
   end.
 
+Fixpoint join_views (segs : list (list contrib)) : list contrib :=
+  match segs with
+  | [] => []
+  | [x] => x
+  | x :: r => x ++ CBreak :: join_views r
+  end.
+
 Definition view_contribs (p : node) : list contrib :=
   map norm_contrib
       (match p with
        | Null => []
        | Call true _ f args _ =>
            if is_helper "mergeProps" f
-           then flat_map (fun a => match a with Elem false x => view_arg x | _ => [] end) args
+           then join_views (map (fun a => match a with Elem false x => view_arg x | _ => [] end) args)
            else view_arg p
        | _ => view_arg p
        end).
